@@ -1,8 +1,8 @@
 #!/bin/sh
 # tools/try_patch.sh <patch.diff> <ID> [extra ./check args]  -- apply a seeded change to /repo, run a check, revert.
-P="$1"; ID="$2"; shift 2
+P="$(realpath "$1")"; ID="$2"; shift 2
 cd /verif || exit 2
-git -C /repo apply "$P" || { echo "patch does not apply"; exit 3; }
+git -C /repo apply "$P" 2>/dev/null || git -C /repo apply -C1 "$P" || { echo "patch does not apply"; exit 3; }
 ./check "$ID" --no-evidence "$@" > /tmp/try_patch.$$.log 2>&1; rc=$?
 git -C /repo checkout -- . 
 grep -v "^Warning\|^WARNING" /tmp/try_patch.$$.log | grep -c "^VIOLATION" | sed 's/^/violations: /'
@@ -10,5 +10,5 @@ grep -v "^Warning\|^WARNING" /tmp/try_patch.$$.log | grep -A3 "^---- violation" 
 tail -8 /tmp/try_patch.$$.log
 rm -f /tmp/try_patch.$$.log
 # replays written while the patch was applied are not kept
-git -C /verif status --short replays | awk '{print $2}' | xargs -r rm -rf
+git -C /verif status --short replays | awk '{print $2}' | grep -v fixed- | xargs -r rm -rf
 echo "exit code: $rc"
